@@ -48,6 +48,10 @@ type volStub struct {
 	mu        sync.Mutex
 	listeners map[string]*bufconn.Listener
 	servers   []*grpc.Server
+	hosts     []string                   // volume server addresses the stub master announces (replica locations of every volume)
+	behav     map[string][]string        // file id -> per host: "ok" (default), "404", "500", "down"
+	served    map[string]int             // "<behaviour>" -> number of HTTP requests answered that way
+	lookups   int                        // LookupVolume requests the real filer gRPC server answered
 	deleted   []string          // file ids named by BatchDelete requests since the last take()
 	requests  int               // BatchDelete requests seen
 	blobs     map[string][]byte // manifest chunk contents by file id
@@ -68,33 +72,82 @@ func (stubRT) RoundTrip(req *http.Request) (*http.Response, error) {
 	}
 	fid := strings.TrimPrefix(req.URL.Path, "/")
 	vs.mu.Lock()
+	defer vs.mu.Unlock()
 	b, ok := vs.blobs[fid]
-	vs.mu.Unlock()
-	if req.URL.Host != stubVolume || !ok {
-		return &http.Response{StatusCode: 404, Status: "404 Not Found", Body: io.NopCloser(bytes.NewReader(nil)), Header: http.Header{}, Request: req}, nil
+	hostIdx := -1
+	for i, h := range vs.hosts {
+		if h == req.URL.Host {
+			hostIdx = i
+		}
 	}
+	how := "ok"
+	if bh := vs.behav[fid]; hostIdx >= 0 && hostIdx < len(bh) {
+		how = bh[hostIdx]
+	}
+	status := func(code int, text string) (*http.Response, error) {
+		return &http.Response{StatusCode: code, Status: text, Body: io.NopCloser(bytes.NewReader(nil)), Header: http.Header{}, Request: req}, nil
+	}
+	switch {
+	case hostIdx < 0:
+		return nil, fmt.Errorf("verif: no simulated volume server at %s", req.URL.Host)
+	case how == "down":
+		vs.served["down"]++
+		return nil, fmt.Errorf("dial tcp %s: connect: connection refused", req.URL.Host)
+	case how == "500":
+		vs.served["500"]++
+		return status(500, "500 Internal Server Error")
+	case how == "404" || !ok:
+		vs.served["404"]++
+		return status(404, "404 Not Found")
+	}
+	// a Range request (a chunk that is only partly visible) gets exactly that slice
+	if rg := req.Header.Get("Range"); strings.HasPrefix(rg, "bytes=") {
+		var from, to int
+		if n, _ := fmt.Sscanf(rg, "bytes=%d-%d", &from, &to); n == 2 && from >= 0 && from <= to {
+			if to >= len(b) {
+				to = len(b) - 1
+			}
+			if from > to {
+				return status(416, "416 Requested Range Not Satisfiable")
+			}
+			part := b[from : to+1]
+			vs.served["ok-range"]++
+			return &http.Response{StatusCode: 206, Status: "206 Partial Content", Body: io.NopCloser(bytes.NewReader(part)), ContentLength: int64(len(part)), Header: http.Header{}, Request: req}, nil
+		}
+	}
+	vs.served["ok"]++
 	return &http.Response{StatusCode: 200, Status: "200 OK", Body: io.NopCloser(bytes.NewReader(b)), ContentLength: int64(len(b)), Header: http.Header{}, Request: req}, nil
 }
 
 func (s *sess) startVolStub() {
-	if s.r.Plan.C("gc") != 1 {
+	gcRun, chunkRun := s.r.Plan.C("gc") == 1, s.r.Plan.C("chunks") == 1
+	if !gcRun && !chunkRun {
 		return
 	}
-	vs := &volStub{listeners: map[string]*bufconn.Listener{}, blobs: map[string][]byte{}}
-	for _, a := range []string{stubMasterGrpc, stubVolumeGrpc} {
-		vs.listeners[a] = bufconn.Listen(1 << 20)
+	vs := &volStub{listeners: map[string]*bufconn.Listener{}, blobs: map[string][]byte{}, behav: map[string][]string{}, served: map[string]int{}, hosts: []string{stubVolume}}
+	if chunkRun {
+		// every volume has 2-3 replica locations
+		vs.hosts = []string{"vs1:8080", "vs2:8080", "vs3:8080"}[:2+int(s.r.Plan.C("replicas"))%2]
 	}
+	vs.listeners[stubMasterGrpc] = bufconn.Listen(1 << 20)
 	ms := grpc.NewServer()
 	master_pb.RegisterSeaweedServer(ms, vs)
 	go ms.Serve(vs.listeners[stubMasterGrpc])
-	vsrv := grpc.NewServer()
-	volume_server_pb.RegisterVolumeServerServer(vsrv, vs)
-	go vsrv.Serve(vs.listeners[stubVolumeGrpc])
-	vs.servers = []*grpc.Server{ms, vsrv}
+	vs.servers = []*grpc.Server{ms}
+	for _, h := range vs.hosts {
+		a := strings.Replace(h, ":8080", ":18080", 1)
+		vs.listeners[a] = bufconn.Listen(1 << 20)
+		vsrv := grpc.NewServer()
+		volume_server_pb.RegisterVolumeServerServer(vsrv, vs)
+		go vsrv.Serve(vs.listeners[a])
+		vs.servers = append(vs.servers, vsrv)
+	}
 	pb.VerifResetGrpcClients()
 	pb.VerifDialOptions = func(address string) []grpc.DialOption {
 		return []grpc.DialOption{grpc.WithInsecure(), grpc.WithContextDialer(func(ctx context.Context, addr string) (net.Conn, error) {
+			vs.mu.Lock()
 			l := vs.listeners[addr]
+			vs.mu.Unlock()
 			if l == nil {
 				return nil, fmt.Errorf("verif: no simulated node at %s", addr)
 			}
@@ -104,7 +157,10 @@ func (s *sess) startVolStub() {
 	httpOnce.Do(func() { util.Transport.RegisterProtocol("http", stubRT{}) })
 	curStub = vs
 	s.vs = vs
-	s.gc = &gcState{ever: map[string]int{}, loop: s.r.Plan.C("gcloop") == 1, renamedLink: map[string]bool{}, renameShared: map[string]bool{}}
+	if gcRun {
+		s.gc = &gcState{ever: map[string]int{}, loop: s.r.Plan.C("gcloop") == 1, renamedLink: map[string]bool{}, renameShared: map[string]bool{}}
+	}
+	s.chunkRun = chunkRun
 	simkit.Wait()
 }
 
@@ -121,13 +177,15 @@ func (s *sess) stopVolStub() {
 	s.vs = nil
 }
 
-// KeepConnected (stub master): announce the stub volume server for volumes 1..9, then stay silent.
+// KeepConnected (stub master): announce every stub volume server for volumes 1..9, then stay silent.
 func (vs *volStub) KeepConnected(stream master_pb.Seaweed_KeepConnectedServer) error {
 	if _, err := stream.Recv(); err != nil {
 		return err
 	}
-	if err := stream.Send(&master_pb.VolumeLocation{Url: stubVolume, PublicUrl: stubVolume, NewVids: []uint32{1, 2, 3, 4, 5, 6, 7, 8, 9}}); err != nil {
-		return err
+	for _, h := range vs.hosts {
+		if err := stream.Send(&master_pb.VolumeLocation{Url: h, PublicUrl: h, NewVids: []uint32{1, 2, 3, 4, 5, 6, 7, 8, 9}}); err != nil {
+			return err
+		}
 	}
 	<-stream.Context().Done()
 	return nil
@@ -168,9 +226,15 @@ func (s *sess) afterOpen() {
 	if _, found := s.n.f.MasterClient.GetLocations(1); !found {
 		s.r.HarnessError("the filer's MasterClient did not learn the simulated volume location")
 	}
-	if s.gc.loop {
+	if locs, _ := s.n.f.MasterClient.GetLocations(1); len(locs) != len(s.vs.hosts) {
+		s.r.HarnessError("the filer's MasterClient knows %d locations of volume 1, the stub master announced %d", len(locs), len(s.vs.hosts))
+	}
+	if s.gc != nil && s.gc.loop {
 		go s.n.f.VerifLoopProcessingDeletion()
 		simkit.Wait()
+	}
+	if s.chunkRun {
+		s.serveFilerGrpc()
 	}
 }
 
